@@ -97,6 +97,7 @@ class SeqOps:
         fa([s, n], z3.Implies(z3.And(0 <= n, n <= Len(s)), Len(Take(s, n)) == n), Take(s, n))
         fa([s, n], z3.Implies(n == Len(s), Take(s, n) == s), Take(s, n))
         fa([s, n], z3.Implies(n <= 0, Take(s, n) == Empty), Take(s, n))
+        fa([s, x, n], z3.Implies(z3.And(0 <= n, n <= Len(s)), Take(App(s, x), n) == Take(s, n)), Take(App(s, x), n))
         fa([s, n, i], z3.Implies(z3.And(0 <= i, i < n, n <= Len(s)), At(Take(s, n), i) == At(s, i)), At(Take(s, n), i))
         fa([s, n, x], z3.Implies(Mem(Take(s, n), x), Mem(s, x)), Mem(Take(s, n), x))
         fa([s, n, x], z3.Implies(z3.And(Mem(Take(s, n), x), 0 <= n, n <= Len(s)), z3.And(Idx(s, x) < n, Idx(Take(s, n), x) == Idx(s, x))),
@@ -159,10 +160,11 @@ class SeqOps:
             # positive; a full count means every member has the value
             fa([s, m, v, x], z3.Implies(z3.And(Mem(s, x), m[x] == v), Cnt(s, m, v) >= 1), Cnt(s, m, v), Mem(s, x), m[x])
             fa([s, m, v, x], z3.Implies(z3.And(Cnt(s, m, v) == Len(s), Mem(s, x)), m[x] == v), Cnt(s, m, v), Mem(s, x), m[x])
+            # a count below the length has a witness: some member does not have the value (single-term trigger)
+            fa([s, m, v], z3.Implies(Cnt(s, m, v) < Len(s), z3.And(Mem(s, Wit(s, m, v)), m[Wit(s, m, v)] != v)), Cnt(s, m, v))
             if FULL_CNT:
-                # all-equal <=> count is the length   (cross-product triggers: only enabled where needed, e.g. C06)
+                # all-equal <=> count is the length   (cross-product triggers: only enabled where needed)
                 fa([s, m, v, x], z3.Implies(z3.And(Cnt(s, m, v) == Len(s), Mem(s, x)), m[x] == v), Cnt(s, m, v), Mem(s, x))
-                fa([s, m, v], z3.Implies(Cnt(s, m, v) < Len(s), z3.And(Mem(s, Wit(s, m, v)), m[Wit(s, m, v)] != v)), Cnt(s, m, v))
                 # a member with the value forces the count to be positive
                 fa([s, m, v, x], z3.Implies(z3.And(Mem(s, x), m[x] == v), Cnt(s, m, v) >= 1), Cnt(s, m, v), Mem(s, x))
         self._axioms = ax
